@@ -180,7 +180,9 @@ def sym_sender_exception(lazy, via, when):
 
 # ---------------------------------------------------------------------------- processor level
 LAY = ctx.Layout([0, 100, 200, 300], [[(1, 5, 0), (20, 30, 1)], [(110, 120, 2)], [(210, 215, 3), (250, 260, 4)]])
-STAGES = ["source", "mid", "multi", "loader", "saver_target", "saver_side", "consumer", "exhaust"]
+STAGES = ["source", "mid", "multi", "loader", "saver_target", "saver_side", "consumer", "exhaust", "apply"]
+# "apply": the consumer-side code that runs inside get_iter for every chunk (a function registered under
+# apply_data_function) raises at chunk j while the pipeline itself is healthy
 # "exhaust": a plugin that computes only once all its input has arrived fails - i.e. AFTER the source is exhausted and
 # the savers of the upstream data types have been closed
 
@@ -258,6 +260,15 @@ def sym_failure(stage, proc="single", lazy=True, policy="lowest", dev=0, sym_lay
     ctx.COUNTS.clear()
     P, fe = _pipeline(stage, j, obj, L, ctx.make_storage_classes())
     st = ctx.make_context(P, storage=[fe], allow_lazy=lazy, max_messages=2 if not lazy else 4, timeout=1)
+    if stage == "apply":
+        seen = {"n": 0}
+
+        def bad_apply(data, run_id, targets):
+            seen["n"] += 1
+            if seen["n"] - 1 == j:
+                raise ZeroDivisionError("apply_data_function fails")
+            return data
+        st.set_context_config(dict(apply_data_function=(bad_apply,)))
     got, exc = [], None
 
     def consume():
